@@ -1,7 +1,17 @@
 package keeper
 
 import (
+	"context"
+	"errors"
 	"math/big"
+	"time"
+
+	storetypes "cosmossdk.io/store/types"
+	"github.com/cosmos/cosmos-sdk/codec/address"
+	codectypes "github.com/cosmos/cosmos-sdk/codec/types"
+	"github.com/cosmos/cosmos-sdk/runtime"
+	xchain "github.com/palomachain/paloma/v2/internal/x-chain"
+	schedulertypes "github.com/palomachain/paloma/v2/x/scheduler/types"
 
 	"cosmossdk.io/log"
 	sdkmath "cosmossdk.io/math"
@@ -153,7 +163,158 @@ func VerifC10_ProjectionExact() {
 	sym.Assert(sum.Cmp(new(big.Int).Lsh(big.NewInt(1), 32)) <= 0, "powers-never-exceed-the-maximum-in-total")
 }
 
+// ---- one step from an arbitrary snapshot state: what gets sent ------------------------------
+
+// c10Valset is a valset keeper holding whatever snapshots the harness puts in it.
+type c10Valset struct {
+	current *valsettypes.Snapshot
+	onChain map[string]*valsettypes.Snapshot
+}
+
+func (v *c10Valset) FindSnapshotByID(ctx context.Context, id uint64) (*valsettypes.Snapshot, error) {
+	if v.current != nil && v.current.Id == id {
+		return v.current, nil
+	}
+	for _, s := range v.onChain {
+		if s.Id == id {
+			return s, nil
+		}
+	}
+	return nil, errors.New("snapshot not found")
+}
+func (v *c10Valset) GetCurrentSnapshot(ctx context.Context) (*valsettypes.Snapshot, error) {
+	return v.current, nil
+}
+func (v *c10Valset) SetSnapshotOnChain(ctx context.Context, snapshotID uint64, chainReferenceID string) error {
+	return nil
+}
+func (v *c10Valset) GetLatestSnapshotOnChain(ctx context.Context, chainReferenceID string) (*valsettypes.Snapshot, error) {
+	if s, ok := v.onChain[chainReferenceID]; ok {
+		return s, nil
+	}
+	return nil, errors.New("no snapshot on chain")
+}
+func (v *c10Valset) KeepValidatorAlive(ctx context.Context, valAddr sdk.ValAddress, pigeonVersion string) error {
+	return nil
+}
+func (v *c10Valset) Jail(ctx context.Context, valAddr sdk.ValAddress, reason string) error {
+	return nil
+}
+func (v *c10Valset) IsJailed(ctx context.Context, val sdk.ValAddress) (bool, error) {
+	return false, nil
+}
+func (v *c10Valset) SetValidatorBalance(ctx context.Context, valAddr sdk.ValAddress, chainType string, chainReferenceID string, externalAddress string, balance *big.Int) error {
+	return nil
+}
+func (v *c10Valset) GetValidatorChainInfos(ctx context.Context, valAddr sdk.ValAddress) ([]*valsettypes.ExternalChainInfo, error) {
+	return nil, nil
+}
+func (v *c10Valset) GetAllChainInfos(ctx context.Context) ([]*valsettypes.ValidatorExternalAccounts, error) {
+	return nil, nil
+}
+
+type c10Sent struct {
+	chain  string
+	valset types.Valset
+}
+type c10Sender struct{ sent *[]c10Sent }
+
+func (s c10Sender) SendValsetMsgForChain(ctx context.Context, chainInfo *types.ChainInfo, valset types.Valset, assignee, remoteAddr string) error {
+	*s.sent = append(*s.sent, c10Sent{chainInfo.GetChainReferenceID(), valset})
+	return nil
+}
+
+// c10Assigner picks the first member of the current snapshot that has an account on the chain.
+type c10Assigner struct{ vk *c10Valset }
+
+func (a c10Assigner) PickValidatorForMessage(ctx context.Context, weights *types.RelayWeights, chainID string, requirements *xchain.JobRequirements) (string, error) {
+	for _, v := range a.vk.current.Validators {
+		for _, ci := range v.ExternalChainInfos {
+			if ci.ChainReferenceID == chainID {
+				return v.Address.String(), nil
+			}
+		}
+	}
+	return "", errors.New("no eligible relayer")
+}
+
+// VerifC10_SendStep: from an ARBITRARY snapshot state (three validators with
+// stakes 1000 or 3000 each, any subset of them with an account on the chain, the chain
+// active or not, the snapshot live on the chain current, older or none), run each
+// path that can send a validator set to the chain — the publication of a built
+// snapshot and the just-in-time update before a scheduled job — and check
+// whatever was handed to the sender.
+func VerifC10_SendStep() {
+	const chain = "eth-main"
+	ctx, _ := models.NewContext(100)
+	cdc := models.Codec(func(r codectypes.InterfaceRegistry) { types.RegisterInterfaces(r) })
+	vk := &c10Valset{onChain: map[string]*valsettypes.Snapshot{}}
+	k := NewKeeper(cdc, runtime.NewKVStoreService(storetypes.NewKVStoreKey(types.StoreKey)), "authority", nil, vk, address.NewBech32Codec("palomavaloper"), nil, nil)
+	var sent []c10Sent
+	k.msgSender = c10Sender{&sent}
+	k.msgAssigner = c10Assigner{vk}
+	// a chain without a deployed bridge contract is not active yet
+	contract := "0x3333333333333333333333333333333333333333"
+	if sym.Bool("chain-not-active") {
+		contract = ""
+	}
+	if err := k.updateChainInfo(ctx, &types.ChainInfo{ChainReferenceID: chain, ChainID: 1, Status: types.ChainInfo_ACTIVE, SmartContractUniqueID: []byte("compass-1"), SmartContractAddr: contract,
+		ReferenceBlockHeight: 1, ReferenceBlockHash: "0xhash", MinOnChainBalance: "1", ActiveSmartContractID: 1, RelayWeights: &types.RelayWeights{Fee: "1", Uptime: "1", SuccessRate: "1", ExecutionTime: "1", FeatureSet: "1"}}); err != nil {
+		panic(err)
+	}
+	snap := &valsettypes.Snapshot{Id: 7, TotalShares: sdkmath.ZeroInt(), CreatedAt: ctx.BlockTime()}
+	onChainShare, total := int64(0), int64(0)
+	var want []string
+	for i := 0; i < 3; i++ {
+		sh := []int64{1000, 3000}[sym.Choice("shares", 2)] // concrete stakes: the float projection is evaluated exactly
+		v := valsettypes.Validator{Address: sdk.ValAddress([]byte{byte('a' + i), 1, 2, 3, 4, 5, 6, 7, 8, 9, 10, 11, 12, 13, 14, 15, 16, 17, 18, 19}), ShareCount: sdkmath.NewInt(sh), State: valsettypes.ValidatorState_ACTIVE}
+		if sym.Bool("has-account-on-the-chain") {
+			v.ExternalChainInfos = []*valsettypes.ExternalChainInfo{{ChainType: "evm", ChainReferenceID: chain, Address: models.EthAddrs[i]}}
+			onChainShare += sh
+			want = append(want, models.EthAddrs[i])
+		}
+		snap.Validators = append(snap.Validators, v)
+		snap.TotalShares = snap.TotalShares.Add(sdkmath.NewInt(sh))
+		total += sh
+	}
+	vk.current = snap
+	switch sym.Choice("live-on-chain", 3) {
+	case 1:
+		vk.onChain[chain] = snap
+	case 2: // an older one, published long ago
+		vk.onChain[chain] = &valsettypes.Snapshot{Id: 3, TotalShares: sdkmath.NewInt(1), CreatedAt: ctx.BlockTime().Add(-40 * 24 * time.Hour)}
+	}
+	if sym.Bool("via-scheduled-job") {
+		_ = k.PreJobExecution(ctx, &schedulertypes.Job{ID: "job", Routing: schedulertypes.Routing{ChainType: "evm", ChainReferenceID: chain}})
+	} else {
+		_ = k.PublishSnapshotToAllChains(ctx, snap, sym.Bool("forced"))
+	}
+	sym.Reach("step-done")
+	for _, s := range sent {
+		sym.Reach("valset-sent")
+		sym.Assert(s.valset.ValsetID == snap.Id, "valset-id-is-snapshot-id")
+		sum := uint64(0)
+		for _, p := range s.valset.Powers {
+			sum += p
+		}
+		sym.Assert(sum >= 2_863_311_530, "valset-sent-only-with-two-thirds-of-the-maximum-power")
+		// within the rounding of the projection (each power within 1 of the scaled fraction):
+		// the members' stake is at least ~2/3 of the snapshot's
+		sym.Assert(3*onChainShare+3 >= 2*total, "sent-only-when-members-hold-two-thirds-of-the-stake")
+		same := len(want) == len(s.valset.Validators)
+		for _, a := range s.valset.Validators {
+			found := false
+			for _, w := range want {
+				found = found || w == a
+			}
+			same = same && found
+		}
+		sym.Assert(same, "members-are-the-snapshot-validators-with-an-account-on-the-chain")
+	}
+}
+
 var VerifEntries = map[string]func(){
+	"VerifC10_SendStep":        VerifC10_SendStep,
 	"VerifC10_ProjectionExact": VerifC10_ProjectionExact,
 	"VerifC10_Projection":      VerifC10_Projection,
 	"VerifC10_Gate":            VerifC10_Gate,
